@@ -1527,6 +1527,17 @@ def canonicalise_call_style(tree):
     parameters passed by keyword become positional (when every earlier one is present).  Calls with * / ** are left
     alone."""
     funcs = {st.name: st for st in tree.body if isinstance(st, ast.FunctionDef)}
+    # constructors of the module's classes (own __init__, no inheritance chase): same style
+    for st in tree.body:
+        if isinstance(st, ast.ClassDef):
+            for m_ in st.body:
+                if isinstance(m_, ast.FunctionDef) and m_.name == '__init__' and not m_.decorator_list and m_.args.args:
+                    import copy as _copy
+                    ctor = _copy.copy(m_)
+                    ctor.args = _copy.copy(m_.args)
+                    ctor.args.args = list(m_.args.args[1:])
+                    ctor.decorator_list = []
+                    funcs.setdefault(st.name, ctor)
     shadowed = set()
     for st in tree.body:
         if isinstance(st, ast.Assign):
